@@ -1257,3 +1257,31 @@ pub(crate) enum CompilationItem<W, R, T> {
     Overload(Vec<TracedOverload<W, R, T>>),
     Type(Arc<XType>),
 }
+
+#[cfg(xray_verif)]
+impl<'p, W, R, T> CompilationScope<'p, W, R, T> {
+    pub(crate) fn verif_variable_type(&self, name: &Identifier) -> Option<Arc<XType>> {
+        let cell = self.variables.get(name)?;
+        match &self.cells[*cell] {
+            Cell::Variable { t, .. } => Some(t.clone()),
+            _ => None,
+        }
+    }
+
+    pub(crate) fn verif_overloads(&self) -> Vec<(Identifier, &'static str, crate::verif::SigDesc)> {
+        let mut ret = Vec::new();
+        for (name, overloads) in self.functions.iter() {
+            for ov in overloads {
+                match ov {
+                    Overload::Static { spec, .. } => {
+                        ret.push((*name, "static", crate::verif::SigDesc::Static(spec.clone())))
+                    }
+                    Overload::Factory(desc, _) => {
+                        ret.push((*name, "dynamic", crate::verif::SigDesc::Factory(desc)))
+                    }
+                }
+            }
+        }
+        ret
+    }
+}
